@@ -7,8 +7,8 @@ git -C /repo archive HEAD | tar -x -C "$W/mut"
 (cd "$W/mut" && git apply --unsafe-paths -p1 "$OUT/patch.diff" 2>&1 || patch -p1 -s < "$OUT/patch.diff") || { echo "PATCH DOES NOT APPLY"; exit 3; }
 DEMO="$OUT/demo.py"; RUN="/venv/bin/python"
 [ -f "$DEMO" ] || { DEMO="$OUT/demo.sh"; RUN="sh"; }
-echo "== demo on clean"; (cd "$W/clean" && PYTHONPATH="$W/clean" timeout 900 $RUN "$DEMO" "$W/clean" 2>&1 | tail -3; echo "exit=$?")
-echo "== demo on mut"; (cd "$W/mut" && PYTHONPATH="$W/mut" timeout 900 $RUN "$DEMO" "$W/mut" 2>&1 | tail -3; echo "exit=$?")
+echo "== demo on clean"; (cd "$W/clean" && PYTHONPATH="$W/clean" timeout 900 $RUN "$DEMO" "$W/clean" > "$W/demo_clean.out" 2>&1; echo "demo exit on clean=$? (want 0)"; tr -d '\000' < "$W/demo_clean.out" | tail -3 | cut -c1-300)
+echo "== demo on mut"; (cd "$W/mut" && PYTHONPATH="$W/mut" timeout 900 $RUN "$DEMO" "$W/mut" > "$W/demo_mut.out" 2>&1; echo "demo exit on mut=$? (want 1)"; tr -d '\000' < "$W/demo_mut.out" | tail -3 | cut -c1-300)
 if [ "$2" != "notests" ]; then
 echo "== test-suite on mut"; (cd "$W/mut" && PYTHONPATH="$W/mut" timeout 3000 /venv/bin/python -m pytest -q -p no:cacheprovider -n 8 --timeout=900 tests 2>&1 | grep -E "^FAILED|passed|failed|error" | sort | tail -12)
 fi
